@@ -344,10 +344,17 @@ CHECKS = {
                  "(tables transcribed from bitxhub-core appchain-mgr/service-mgr) and the block contains an operation, conclusion or "
                  "cascade concerning that object. (C) forbidden is absorbing. (D) whenever an appchain is frozen or forbidden none of "
                  "its services is available/freezing. Non-trivial = an IBTP whose source or destination is unusable after >=2 "
-                 "lifecycle steps on it or its chain; distinct = hash of history."),
-        "assumptions": ["rules, roles and nodes are exercised by the C03, C15 and C17 checks; this check covers appchains and services",
+                 "lifecycle steps on it or its chain; distinct = hash of history. "
+                 "Second state machine (TestC16Gov, gov world: 2 normal governance admins, 2 non-validating nodes, 3 rules of chainA): "
+                 "freeze/activate/logout of roles (by a super admin or the role itself), update/logout of nodes, register/update-master/"
+                 "logout of rules, each later concluded by four approving or rejecting votes or withdrawn by its sponsor, restarts. "
+                 "Oracle: (B) and (C) with the tables of role.go setFSM and bitxhub-core node-mgr/rule-mgr; (E) for roles and nodes the "
+                 "stored status is an in-progress status (registering, freezing, activating, logouting, updating) exactly while one "
+                 "proposal for that operation has status proposed; at most one proposal per object is being voted on; a paused proposal "
+                 "implies one being voted on. Non-trivial there = >=3 status changes."),
+        "assumptions": ["audit admins and node binding are not generated (roles: governance admins; nodes: non-validating)",
                         "several operations in one block (votes concluding a proposal and restoring a locked one) are accepted as a path of up to three declared transitions"],
-        "quick": [T("TestC16", 8, 40, steps=35)],
-        "thorough": [T("TestC16", 16, 1500, steps=50, timeout=3000)],
+        "quick": [T("TestC16", 8, 40, steps=35), T("TestC16Gov", 8, 40, steps=35)],
+        "thorough": [T("TestC16", 16, 1500, steps=50, timeout=3000), T("TestC16Gov", 16, 1500, steps=50, timeout=3000)],
     },
 }
